@@ -594,10 +594,16 @@ func mk[T any, PT interface {
 			stage = "UnmarshalJSONStrict"
 			if err := PT(&s).UnmarshalJSONStrict(doc); err != nil {
 				r.StrictErr = err.Error()
+				if r.StrictErr == "" {
+					r.StrictErr = "(non-nil error with an empty message)"
+				}
 			} else {
+				stage = "json.Marshal after UnmarshalJSONStrict"
 				out, err := json.Marshal(s)
 				if err == nil {
 					r.StrictOut = out
+				} else {
+					r.StrictErr = "re-encoding the strictly decoded value fails: " + err.Error()
 				}
 			}
 		},
@@ -656,10 +662,16 @@ func mkS[T any, PT interface {
 			stage = "UnmarshalJSONStrict"
 			if err := PT(&s).UnmarshalJSONStrict(doc); err != nil {
 				r.StrictErr = err.Error()
+				if r.StrictErr == "" {
+					r.StrictErr = "(non-nil error with an empty message)"
+				}
 			} else {
+				stage = "json.Marshal after UnmarshalJSONStrict"
 				out, err := json.Marshal(s)
 				if err == nil {
 					r.StrictOut = out
+				} else {
+					r.StrictErr = "re-encoding the strictly decoded value fails: " + err.Error()
 				}
 			}
 		},
